@@ -129,11 +129,20 @@ func (s *quicServer) run() error {
 func (s *quicServer) handleConn(c quic.Connection) error {
 	localAddr := netAddr2NetipAddr(c.LocalAddr())
 	remoteAddr := netAddr2NetipAddr(c.RemoteAddr())
+	var concurrent atomic.Int32
+	var lastDone atomic.Int64 // unix nano, when the last query was done
 	for {
 		streamAcceptCtx, cancelAccept := context.WithTimeout(context.Background(), s.idleTimeout)
 		stream, err := c.AcceptStream(streamAcceptCtx)
+		idleTimeout := streamAcceptCtx.Err() != nil
 		cancelAccept()
 		if err != nil {
+			// A connection on which queries are still being handled is not
+			// idle. The client is waiting for the responses.
+			busy := concurrent.Load() > 0 || time.Since(time.Unix(0, lastDone.Load())) < s.idleTimeout
+			if idleTimeout && busy && c.Context().Err() == nil {
+				continue
+			}
 			return err
 		}
 
@@ -148,10 +157,13 @@ func (s *quicServer) handleConn(c quic.Connection) error {
 
 		// Handle stream.
 		// For doq, one stream, one query.
+		concurrent.Add(1)
 		go func() {
 			defer func() {
 				stream.Close()
 				stream.CancelRead(0) // TODO: Needs a proper error code.
+				lastDone.Store(time.Now().UnixNano())
+				concurrent.Add(-1)
 			}()
 			s.handleStream(stream, c, remoteAddr, localAddr)
 		}()
